@@ -2,6 +2,6 @@ SPECIFICATION TSpec
 CONSTANTS
   MaxCount = 1024
   MaxBytes = 4194304
-INVARIANT Mark
+INVARIANTS Mark Verdict
 POSTCONDITION Accepted
 CHECK_DEADLOCK FALSE
